@@ -196,11 +196,21 @@ def d_table(draw, n_min=8, n_max=24, d_min=1, d_max=3):
     return n, d, X
 
 
+def _ordered(draw, X, y, w):
+    """one data set in four arrives sorted by its target (grouped by class for labels): a table exported from a GROUP BY / ORDER BY"""
+    how = draw(st.sampled_from([None, None, None, None, None, None, "by-y", "by-y-desc"]))
+    if how is None:
+        return X, y, w
+    idx = sorted(range(len(y)), key=lambda i: y[i], reverse=(how == "by-y-desc"))
+    return [X[i] for i in idx], [y[i] for i in idx], None if w is None else [w[i] for i in idx]
+
+
 def d_reg(draw, **kw):
     n, d, X = d_table(draw, **kw)
     beta = [draw(st.integers(-8, 8)) / 4.0 for _ in range(d)]
     y = [sum(b * v for b, v in zip(beta, row)) + draw(st.integers(-16, 16)) / 8.0 for row in X]
     w = draw(st.one_of(st.none(), st.lists(st.integers(1, 8).map(lambda v: v / 2.0), min_size=n, max_size=n)))
+    X, y, w = _ordered(draw, X, y, w)
     return dict(kind="reg", X=X, y=y, w=w)
 
 
@@ -217,7 +227,8 @@ def d_clf(draw, n_classes=None, **kw):
             z[k + i] = i      # at least three rows per class (k-means per class with up to 3 clusters)
     X = [[centres[zi][j] + X[i][j] / 4.0 for j in range(d)] for i, zi in enumerate(z)]
     w = draw(st.one_of(st.none(), st.lists(st.integers(1, 8).map(lambda v: v / 2.0), min_size=n, max_size=n)))
-    return dict(kind="clf", X=X, y=[pool[i] for i in z], w=w)
+    X, y, w = _ordered(draw, X, [pool[i] for i in z], w)
+    return dict(kind="clf", X=X, y=y, w=w)
 
 
 def d_cluster(draw, **kw):
